@@ -152,8 +152,11 @@ TEXT.update({
              "an outcome held by a call is the write-once result of its item, produced by an execution that began after the call; finished non-start calls hold exactly one "
              "outcome that never changes; coalesced calls hold identical outcomes; the executed function was supplied by a call of that batch; a work function returning "
              "unresolved yields the resolve-not-called outcome; executions <= calls (sum argument over items); at quiescence the key is not in the map; while any call is "
-             "unanswered a state-changing step is enabled (no deadlock). Tied by concurrent trace acceptance of hook events, executed-function identity and received outcomes.",
-        note="Trusted: Lean kernel + 3 standard axioms; mutex/cond/once semantics modelled; liveness only as deadlock freedom (no leadsTo theorem); tie = acceptance of this run's event logs + CFG facts.",
+             "unanswered a state-changing step is enabled (no deadlock); and the liveness clause itself: along every run (unbounded calls, any interleaving) that is weakly fair "
+             "for the step a call is waiting for (its own next step or that of the owner of the item it is parked on; 'the work function returns' is such a step) every made call "
+             "ends, a blocking/async one holding an outcome (ranking function <= 9 over a ghost owner of the runner region). Tied by concurrent trace acceptance of hook events, "
+             "executed-function identity and received outcomes.",
+        note="Trusted: Lean kernel + 3 standard axioms; mutex/cond/once semantics modelled; the fairness hypothesis of the leads-to theorem is about the Go scheduler and work functions and is assumed; tie = acceptance of this run's event logs + CFG facts.",
         technique="Lean 4 proof (six invariant groups over an LTS with unbounded calls/items, ghost clock and counters) + concurrent trace acceptance"),
 })
 TEXT.update({
